@@ -144,18 +144,30 @@ theorem bare_key_is_identifier (k : String) (h : isValidIdentifier k = true) :
 
 /-! ### 3. statement start -/
 
-/-- `protect_statement_start`: the result never starts with `-`; strings that do not start
-    with `-` are unchanged, the others are wrapped in parentheses -/
+/-- `protect_statement_start`: the result starts neither with `-` nor with `via` / `into` /
+    `where` followed by a blank or a tab (`wordOperatorStart`); strings that start with none of
+    these are unchanged, the others are wrapped in one pair of parentheses -/
 theorem statement_start_protected (s : String) :
     (protectStatementStart s).toList.head? ≠ some '-' ∧
-    (s.toList.head? ≠ some '-' → protectStatementStart s = s) ∧
-    (s.toList.head? = some '-' → protectStatementStart s = "(" ++ s ++ ")") :=
-  ⟨protectStatementStart_head s, protectStatementStart_id s, protectStatementStart_minus s⟩
+    wordOperatorStart (protectStatementStart s).toList = false ∧
+    (s.toList.head? ≠ some '-' → wordOperatorStart s.toList = false → protectStatementStart s = s) ∧
+    (s.toList.head? = some '-' → protectStatementStart s = "(" ++ s ++ ")") ∧
+    (wordOperatorStart s.toList = true → protectStatementStart s = "(" ++ s ++ ")") :=
+  ⟨protectStatementStart_head s, protectStatementStart_word s, protectStatementStart_id s,
+    protectStatementStart_minus s, protectStatementStart_wordStart s⟩
 
-/-- so no formatted top-level statement, whatever the layout, starts with `-` -/
+/-- hence no statement `format_expr` prints can continue the line before it as a subtraction -/
 theorem formatted_statement_never_starts_with_minus (e : Expr) (w : Option Nat) :
     (formatExpr e w).toList.head? ≠ some '-' :=
   protectStatementStart_head _
+
+/-- … nor as the right operand of `via` / `into` / `where` (names that are no reserved words:
+    `a` ⏎ `where into x` would be read as `a where into` and a stray `x` — found by the
+    character-level model of the statement rules, C10; since repo commit 1decf6c such a statement
+    is parenthesised) -/
+theorem formatted_statement_never_starts_with_word_operator (e : Expr) (w : Option Nat) :
+    wordOperatorStart (formatExpr e w).toList = false :=
+  protectStatementStart_word _
 
 /-! ### 4. open-ended forms -/
 
@@ -268,23 +280,28 @@ theorem layout_of_comment_free_tree (w indent : Nat) (e : Expr) (hn : namesOk e 
   rwa [textOnly_impl e w indent hc, erase_id e hc] at this
 
 /-- `format_expr` = `protect_statement_start ∘ format_expr_impl`: the parentheses around a
-    statement that starts with `-` are decided alike on the layout and on the single-line text -/
+    statement that starts with `-` are decided alike on the layout and on the single-line text;
+    so are those around a statement that starts with `via` / `into` / `where` and a blank WHEN
+    NO SUCH NAME STANDS AT ITS START (`headSafe`: the leftmost name of the tree is none of the
+    three) — otherwise the decision depends on the layout (`via + b` is parenthesised, `via` ⏎
+    `+ b` is not and need not be), see `word_operator_name_breaks_layout_equivalence`.  The
+    same exclusion is part of `namesOk` for the statements of every do-block inside the tree. -/
 theorem format_expr_only_changes_layout (e : Expr) (mw : Option Nat) (hn : namesOk e = true)
-    (hb : noBare e = true) :
+    (hb : noBare e = true) (hs : headSafe e = true) :
     squash (render (textOnly (formatExprP e mw))) =
       squash (protectStatementStart (exprToSource (eraseComments e))) := by
-  rw [squash_of_eqv (eqv_formatExprP e mw hn (lamOk_of_noBare e hb)), exprToSource, src_erase e hb]
+  rw [squash_of_eqv (eqv_formatExprP e mw hn (lamOk_of_noBare e hb) hs), exprToSource, src_erase e hb]
 
 theorem format_expr_only_changes_layout_general (e : Expr) (mw : Option Nat)
-    (hn : namesOk e = true) (hl : lamOk e = true) :
+    (hn : namesOk e = true) (hl : lamOk e = true) (hs : headSafe e = true) :
     squash (render (textOnly (formatExprP e mw))) = squash (protectStatementStart (flat e)) :=
-  squash_of_eqv (eqv_formatExprP e mw hn hl)
+  squash_of_eqv (eqv_formatExprP e mw hn hl hs)
 
 /-- … for a tree without comments, on the string `format_expr` returns -/
 theorem format_expr_of_comment_free_tree (e : Expr) (mw : Option Nat) (hn : namesOk e = true)
-    (hb : noBare e = true) (hc : anyComment e = false) :
+    (hb : noBare e = true) (hs : headSafe e = true) (hc : anyComment e = false) :
     squash (formatExpr e mw) = squash (protectStatementStart (exprToSource e)) := by
-  have := format_expr_only_changes_layout e mw hn hb
+  have := format_expr_only_changes_layout e mw hn hb hs
   rwa [textOnly_formatExprP e mw hc, render_formatExprP, erase_id e hc] at this
 
 /-- `format_multiline` on every node `format_expr_impl` passes to it -/
@@ -320,29 +337,29 @@ theorem single_line_path_is_fmtSingle (e : Expr) (w indent : Nat)
 
 /-- whenever the single-line text is one line, every width prints its characters -/
 theorem format_squashes_to_single_line (e : Expr) (mw : Option Nat) (hn : namesOk e = true)
-    (hl : lamOk e = true) (h1 : hasNewline (fmtSingle e) = false) :
+    (hl : lamOk e = true) (hs : headSafe e = true) (h1 : hasNewline (fmtSingle e) = false) :
     squash (formatExpr e mw) = squash (protectStatementStart (fmtSingle e)) := by
   have hc := anyComment_false_of_single h1
-  have := format_expr_only_changes_layout_general e mw hn hl
+  have := format_expr_only_changes_layout_general e mw hn hl hs
   rwa [textOnly_formatExprP e mw hc, render_formatExprP, ← single_flat e hl h1] at this
 
 /-- COROLLARY: layout is the only thing the width changes.  For a tree without comments the
     outputs of `format_expr` at any two widths have the same characters up to layout … -/
 theorem format_same_tokens_as_single_line (e : Expr) (w w' : Nat) (hn : namesOk e = true)
-    (hl : lamOk e = true) (hc : anyComment e = false) :
+    (hl : lamOk e = true) (hs : headSafe e = true) (hc : anyComment e = false) :
     squash (formatExpr e (some w)) = squash (formatExpr e (some w')) := by
-  have h1 := format_expr_only_changes_layout_general e (some w) hn hl
-  have h2 := format_expr_only_changes_layout_general e (some w') hn hl
+  have h1 := format_expr_only_changes_layout_general e (some w) hn hl hs
+  have h2 := format_expr_only_changes_layout_general e (some w') hn hl hs
   rw [textOnly_formatExprP e _ hc, render_formatExprP] at h1 h2
   rw [h1, h2]
 
 /-- … and for any tree the text pieces do (the comment pieces are the same at every width:
     C09 `comments_preserved`) -/
 theorem format_same_tokens_at_any_width (e : Expr) (mw mw' : Option Nat) (hn : namesOk e = true)
-    (hl : lamOk e = true) :
+    (hl : lamOk e = true) (hs : headSafe e = true) :
     squash (render (textOnly (formatExprP e mw))) = squash (render (textOnly (formatExprP e mw'))) := by
-  rw [format_expr_only_changes_layout_general e mw hn hl,
-    format_expr_only_changes_layout_general e mw' hn hl]
+  rw [format_expr_only_changes_layout_general e mw hn hl hs,
+    format_expr_only_changes_layout_general e mw' hn hl hs]
 
 /-- FINDING (why `lamOk` is needed): the parentheses around a single lambda parameter depend
     on the width.  `xs via x => x + y` fits in 80 columns and is printed by `expr_to_source`
@@ -362,6 +379,21 @@ theorem quote_in_a_name_breaks_layout_equivalence :
     let e : Expr := .list [.mk [] (.ident "a\"b") none, .mk [] (.ident "c\"d") none]
     squash (formatExpr e (some 80)) ≠ squash (formatExpr e (some 5)) ∧
     lamOk e = true ∧ anyComment e = false ∧ namesOk e = false := by
+  decide +kernel
+
+/-- FINDING (why `headSafe` is needed, since repo commit 1decf6c): a statement whose leftmost
+    name is `via` / `into` / `where` is parenthesised by `protect_statement_start` when a blank
+    follows the name, and is not when the layout breaks the line there — more than layout.  At
+    the top level (`format_expr`) and for a statement of a do-block (`namesOk` excludes it). -/
+theorem word_operator_name_breaks_layout_equivalence :
+    let e : Expr := .bin .add (.ident "via") (.ident "b")
+    let d : Expr := .doBlock [.mk [] e none] (.mk [] (.ident "x") none)
+    formatExpr e (some 80) = "(via + b)" ∧ formatExpr e (some 3) = "via\n  + b" ∧
+    squash (formatExpr e (some 80)) ≠ squash (formatExpr e (some 3)) ∧
+    headSafe e = false ∧ namesOk e = true ∧ lamOk e = true ∧ anyComment e = false ∧
+    fmtImpl 3 0 d = "do {\n  via\n    + b\n  return x\n}" ∧
+    exprToSource d = "do {\n  (via + b)\n  return x\n}" ∧
+    squash (fmtImpl 3 0 d) ≠ squash (exprToSource d) ∧ namesOk d = false ∧ noBare d = true := by
   decide +kernel
 
 /-! ### 8. END TO END on the fragment of C10 (`Frag`: operators, calls, index, field, list
@@ -626,6 +658,10 @@ example : formatRecordKey "a'\"" = "[(\"a'\" + '\"')]" := by decide
 /-- statement start -/
 example : "-x + 1".toList.head? = some '-' := by decide
 example : protectStatementStart "-x + 1" = "(-x + 1)" := by decide
+example : protectStatementStart "where into x" = "(where into x)" ∧
+    protectStatementStart "via\t+ 1" = "(via\t+ 1)" ∧ protectStatementStart "via(1)" = "via(1)" ∧
+    protectStatementStart "viaduct + 1" = "viaduct + 1" ∧ protectStatementStart "via\n  + 1" = "via\n  + 1" ∧
+    protectStatementStart "and b" = "and b" := by decide
 example : "x - 1".toList.head? ≠ some '-' := by decide
 
 /-- open-ended: `a + (x => x + y)` ends with a lambda; as the left operand of `*` or under a
